@@ -617,6 +617,36 @@ def lazy_typestate(rep, cfg):
     return results
 
 
+def eager_decode(rep, cfg):
+    """the public ElementVar::decompress_from_field is documented to ENFORCE validity of the encoding: on its Ok path the decode gadget must have
+    been emitted on exactly its own argument (through the lazy cell), and the cell must hold both halves - not merely the encoding, whose decode
+    constraints would then appear only if some later gadget happens to force the element."""
+    from . import engine as E, summaries as S
+    dec = INNER + "::decompress_from_field"
+    enc = INNER + "::compress_to_field"
+    path = OUTER + "::decompress_from_field"
+    if cfg.prog.body(path) is None:
+        rep.fail_closed("r1cs::element::ElementVar::decompress_from_field not found")
+        return
+    calls = []
+    loc = {dec: lambda ctx: (calls.append(("decode", ctx.args[0])), variant("Ok", mk("DEC", ctx.args[0])))[1],
+           enc: lambda ctx: (calls.append(("encode", ctx.args[0])), variant("Ok", mk("ENCODE", ctx.args[0])))[1]}
+    I = E.Interp(cfg.prog, S.Summaries(local=loc), {"max_depth": 6})
+    out = I.run(path)
+    s = out.params[0]
+    st = None
+    for pc, kind, args, site in out.effects:
+        if kind == "lazy_store":
+            st = args[0]
+    okst = st is not None and st.op == "variant_struct" and st.args[0] == "EncodingAndElement" and \
+        dict(zip(st.args[1], st.args[2:])).get("encoding") is s and dict(zip(st.args[1], st.args[2:])).get("element") is mk("DEC", s)
+    ok = calls == [("decode", s)] and okst and not out.unmodelled
+    rep.ob("EAGER/R/ElementVar::decompress_from_field", ok,
+           "decompress_from_field(s) must emit the decode gadget on s before returning (it is the validity check of the encoding); constraint-emitting calls: %s; cell after the call: %s" % (
+               [(c, Tm.show(a, maxdepth=3)) for c, a in calls], Tm.show(st, maxdepth=4) if st is not None else "unchanged (Encoding only)"),
+           where=cfg.where(path), sample={"obligation": "EAGER/R/ElementVar::decompress_from_field", "calls": [c for c, a in calls]})
+
+
 # =====================================================================================================
 # C15: taint - constraint structure must not depend on witness values
 # =====================================================================================================
